@@ -13,6 +13,7 @@
 import PdshVerif.Opt.Settings
 import PdshVerif.Opt.Spec
 import PdshVerif.Opt.Lemmas
+import PdshVerif.Opt.Accept
 
 namespace PdshVerif.C18
 open PdshVerif PdshVerif.Opt
@@ -60,24 +61,25 @@ theorem getopt_render (os : Str) (opts : List OptW) (operands : List Str) (hwf :
     option if there is one, else of its environment variable if set, else the built-in default. -/
 theorem precedence {fx : Fixes} {d : Defaults} {p : Pers} {env : Env} {argv : List Str} {c : Cfg}
     (h : effective fx d p env argv = .ok c) :
-    c.fanout = pick ((lastArg 'f' (getopt (optstring p) argv).1).map (convS fx))
+    c.fanout = pick ((lastArg 'f' (getopt (fullString d p) argv).1).map (convS fx))
                     ((getenv env "FANOUT").map (convS fx)) DFLT_FANOUT ∧
-    c.connectTimeout = pick ((lastArg 't' (getopt (optstring p) argv).1).map (convT fx))
+    c.connectTimeout = pick ((lastArg 't' (getopt (fullString d p) argv).1).map (convT fx))
                     ((getenv env "PDSH_CONNECT_TIMEOUT").map (convS fx)) CONNECT_TIMEOUT ∧
-    c.commandTimeout = pick ((lastArg 'u' (getopt (optstring p) argv).1).map (convT fx))
+    c.commandTimeout = pick ((lastArg 'u' (getopt (fullString d p) argv).1).map (convT fx))
                     ((getenv env "PDSH_COMMAND_TIMEOUT").map (convS fx)) 0 ∧
-    c.ruser = pick (lastArg 'l' (getopt (optstring p) argv).1) none d.luser ∧
-    c.rcmdName = (lastArg 'R' (getopt (optstring p) argv).1 <|> getenv env "PDSH_RCMD_TYPE" <|> defaultRcmd d) ∧
-    c.miscModules = (lastArg 'M' (getopt (optstring p) argv).1 <|> getenv env "PDSH_MISC_MODULES") ∧
-    c.remotePath = pick (lastArg 'e' (getopt (optstring p) argv).1)
+    c.ruser = pick (lastArg 'l' (getopt (fullString d p) argv).1) none d.luser ∧
+    c.rcmdName = (lastArg 'R' (getopt (fullString d p) argv).1 <|> getenv env "PDSH_RCMD_TYPE" <|> defaultRcmd d) ∧
+    c.miscModules = (lastArg 'M' (getopt (earlyString fx d p) argv).1 <|> getenv env "PDSH_MISC_MODULES") ∧
+    c.remotePath = pick (lastArg 'e' (getopt (fullString d p) argv).1)
                     (if p.isPcp then getenv env "PDSH_REMOTE_PDCP_PATH" else none) d.progPath := by
   obtain ⟨c1, c3, he, ha, hp, _⟩ := effective_ok_inv h
   obtain ⟨f, ct, ut, hf, hct, hut, hc1⟩ := optEnv_ok he
   obtain ⟨hc, _⟩ := postArgs_ok hp
-  obtain ⟨toks, htoks⟩ : ∃ toks, toks = (getopt (optstring p) argv).1 := ⟨_, rfl⟩
-  rw [← htoks] at ha ⊢
-  have e2 := optArgsEarly_other c1 toks
-  have em := optArgsEarly_misc c1 toks
+  obtain ⟨toks, htoks⟩ : ∃ toks, toks = (getopt (fullString d p) argv).1 := ⟨_, rfl⟩
+  obtain ⟨etoks, hetoks⟩ : ∃ etoks, etoks = (getopt (earlyString fx d p) argv).1 := ⟨_, rfl⟩
+  rw [← htoks, ← hetoks] at ha ⊢
+  have e2 := optArgsEarly_other c1 etoks
+  have em := optArgsEarly_misc c1 etoks
   have k1 := applyToks_field fx d p (·.fanout) _ (fun c t c1 => step_fanout fx d p c c1 t) toks _ _ ha
   have k2 := applyToks_field fx d p (·.connectTimeout) _ (fun c t c1 => step_ctmo fx d p c c1 t) toks _ _ ha
   have k3 := applyToks_field fx d p (·.commandTimeout) _ (fun c t c1 => step_utmo fx d p c c1 t) toks _ _ ha
@@ -86,7 +88,7 @@ theorem precedence {fx : Fixes} {d : Defaults} {p : Pers} {env : Env} {argv : Li
   have k6 := applyToks_field fx d p (·.miscModules) _ (fun c t c1 => step_misc fx d p c c1 t) toks _ _ ha
   have k7 := applyToks_field fx d p (·.remotePath) _ (fun c t c1 => step_path fx d p c c1 t) toks _ _ ha
   simp only [lastSome_argOf] at k1 k2 k3 k4 k5 k7
-  have k6' : c3.miscModules = (optArgsEarly c1 toks).miscModules := by
+  have k6' : c3.miscModules = (optArgsEarly c1 etoks).miscModules := by
     rw [k6, lastSome_none]; rfl
   have v1 := (envNum_ok hf).1
   have v2 := (envNum_ok hct).1
@@ -106,7 +108,7 @@ theorem precedence {fx : Fixes} {d : Defaults} {p : Pers} {env : Env} {argv : Li
   · rw [k5]
     cases lastArg 'R' toks <;> cases getenv env "PDSH_RCMD_TYPE" <;> simp [optDefault]
   · rw [k6', em]
-    cases lastArg 'M' toks <;> cases getenv env "PDSH_MISC_MODULES" <;> simp [optDefault]
+    cases lastArg 'M' etoks <;> cases getenv env "PDSH_MISC_MODULES" <;> simp [optDefault]
   · rw [k7]
     cases lastArg 'e' toks <;> cases p <;> cases getenv env "PDSH_REMOTE_PDCP_PATH" <;> simp [pick, optDefault, Pers.isPcp]
 
@@ -122,20 +124,20 @@ theorem lastArg_other_options (ch : Char) (toks toks' : List Tok)
     on FANOUT have the same fanout; likewise for every other setting. -/
 theorem independent {fx : Fixes} {d d' : Defaults} {p p' : Pers} {env env' : Env} {argv argv' : List Str}
     {c c' : Cfg} (h : effective fx d p env argv = .ok c) (h' : effective fx d' p' env' argv' = .ok c') :
-    (((getopt (optstring p) argv).1.filter (isOpt 'f') = (getopt (optstring p') argv').1.filter (isOpt 'f') →
+    (((getopt (fullString d p) argv).1.filter (isOpt 'f') = (getopt (fullString d' p') argv').1.filter (isOpt 'f') →
       getenv env "FANOUT" = getenv env' "FANOUT" → c.fanout = c'.fanout) ∧
-     ((getopt (optstring p) argv).1.filter (isOpt 't') = (getopt (optstring p') argv').1.filter (isOpt 't') →
+     ((getopt (fullString d p) argv).1.filter (isOpt 't') = (getopt (fullString d' p') argv').1.filter (isOpt 't') →
       getenv env "PDSH_CONNECT_TIMEOUT" = getenv env' "PDSH_CONNECT_TIMEOUT" → c.connectTimeout = c'.connectTimeout) ∧
-     ((getopt (optstring p) argv).1.filter (isOpt 'u') = (getopt (optstring p') argv').1.filter (isOpt 'u') →
+     ((getopt (fullString d p) argv).1.filter (isOpt 'u') = (getopt (fullString d' p') argv').1.filter (isOpt 'u') →
       getenv env "PDSH_COMMAND_TIMEOUT" = getenv env' "PDSH_COMMAND_TIMEOUT" → c.commandTimeout = c'.commandTimeout) ∧
-     ((getopt (optstring p) argv).1.filter (isOpt 'l') = (getopt (optstring p') argv').1.filter (isOpt 'l') →
+     ((getopt (fullString d p) argv).1.filter (isOpt 'l') = (getopt (fullString d' p') argv').1.filter (isOpt 'l') →
       d.luser = d'.luser → c.ruser = c'.ruser) ∧
-     ((getopt (optstring p) argv).1.filter (isOpt 'R') = (getopt (optstring p') argv').1.filter (isOpt 'R') →
+     ((getopt (fullString d p) argv).1.filter (isOpt 'R') = (getopt (fullString d' p') argv').1.filter (isOpt 'R') →
       getenv env "PDSH_RCMD_TYPE" = getenv env' "PDSH_RCMD_TYPE" → defaultRcmd d = defaultRcmd d' →
       c.rcmdName = c'.rcmdName) ∧
-     ((getopt (optstring p) argv).1.filter (isOpt 'M') = (getopt (optstring p') argv').1.filter (isOpt 'M') →
+     ((getopt (earlyString fx d p) argv).1.filter (isOpt 'M') = (getopt (earlyString fx d' p') argv').1.filter (isOpt 'M') →
       getenv env "PDSH_MISC_MODULES" = getenv env' "PDSH_MISC_MODULES" → c.miscModules = c'.miscModules) ∧
-     ((getopt (optstring p) argv).1.filter (isOpt 'e') = (getopt (optstring p') argv').1.filter (isOpt 'e') →
+     ((getopt (fullString d p) argv).1.filter (isOpt 'e') = (getopt (fullString d' p') argv').1.filter (isOpt 'e') →
       getenv env "PDSH_REMOTE_PDCP_PATH" = getenv env' "PDSH_REMOTE_PDCP_PATH" → p.isPcp = p'.isPcp →
       d.progPath = d'.progPath → c.remotePath = c'.remotePath)) := by
   obtain ⟨a1, a2, a3, a4, a5, a6, a7⟩ := precedence h
@@ -171,7 +173,7 @@ theorem rejected_partial {fx : Fixes} {d : Defaults} {p : Pers} {env : Env} {arg
     Bool.and_eq_true, decide_eq_true_eq] at hv
   refine ⟨hv.1.2.1.1.2, hv.1.2.1.2, ?_, hr⟩
   rw [a4]
-  cases hla : lastArg 'l' (getopt (optstring p) argv).1 with
+  cases hla : lastArg 'l' (getopt (fullString d p) argv).1 with
   | none => simpa [pick] using hl
   | some a =>
     obtain ⟨arg, hm, hg⟩ := lastArg_mem hla
@@ -192,12 +194,12 @@ theorem rejected {fx : Fixes} {d : Defaults} {p : Pers} {env : Env} {argv : List
     (h : effective fx d p env argv = .ok c) (hl : d.luser.length ≤ d.loginMax)
     (hplain : c.pcpServer = false ∧ c.pcpClient = false) :
     c.fanout ≥ 1 ∧
-    (∀ t, chosenText (getopt (optstring p) argv).1 env 'f' "FANOUT" = some t → CInt.denotes t = some c.fanout) ∧
+    (∀ t, chosenText (getopt (fullString d p) argv).1 env 'f' "FANOUT" = some t → CInt.denotes t = some c.fanout) ∧
     c.connectTimeout ≥ 0 ∧
-    (∀ t, chosenText (getopt (optstring p) argv).1 env 't' "PDSH_CONNECT_TIMEOUT" = some t →
+    (∀ t, chosenText (getopt (fullString d p) argv).1 env 't' "PDSH_CONNECT_TIMEOUT" = some t →
       CInt.denotes t = some c.connectTimeout) ∧
     c.commandTimeout ≥ 0 ∧
-    (∀ t, chosenText (getopt (optstring p) argv).1 env 'u' "PDSH_COMMAND_TIMEOUT" = some t →
+    (∀ t, chosenText (getopt (fullString d p) argv).1 env 'u' "PDSH_COMMAND_TIMEOUT" = some t →
       CInt.denotes t = some c.commandTimeout) ∧
     c.ruser.length ≤ d.loginMax ∧ (∀ n, c.rcmdName = some n → n ∈ d.rcmdModules) := by
   obtain ⟨p1, p2, p3, p4⟩ := rejected_partial h hl hplain
@@ -207,7 +209,7 @@ theorem rejected {fx : Fixes} {d : Defaults} {p : Pers} {env : Env} {argv : List
   unfold optVerify at hv
   simp only [hplain.1, hplain.2, hd4, Bool.not_false, Bool.and_self, Bool.not_true, Bool.false_or,
     Bool.and_eq_true, decide_eq_true_eq] at hv
-  have cmdOk : ∀ ch a, lastArg ch (getopt (optstring p) argv).1 = some a →
+  have cmdOk : ∀ ch a, lastArg ch (getopt (fullString d p) argv).1 = some a →
       ∃ arg, action fx d (.opt ch arg) ≠ .exit 1 ∧ arg.getD [] = a := by
     intro ch a hla
     obtain ⟨arg, hm, hg⟩ := lastArg_mem hla
@@ -216,7 +218,7 @@ theorem rejected {fx : Fixes} {d : Defaults} {p : Pers} {env : Env} {argv : List
   · intro t ht
     unfold chosenText at ht
     rw [a1]
-    cases hla : lastArg 'f' (getopt (optstring p) argv).1 with
+    cases hla : lastArg 'f' (getopt (fullString d p) argv).1 with
     | some a =>
       simp [hla] at ht
       subst ht
@@ -232,7 +234,7 @@ theorem rejected {fx : Fixes} {d : Defaults} {p : Pers} {env : Env} {argv : List
   · intro t ht
     unfold chosenText at ht
     rw [a2]
-    cases hla : lastArg 't' (getopt (optstring p) argv).1 with
+    cases hla : lastArg 't' (getopt (fullString d p) argv).1 with
     | some a =>
       simp [hla] at ht
       subst ht
@@ -250,7 +252,7 @@ theorem rejected {fx : Fixes} {d : Defaults} {p : Pers} {env : Env} {argv : List
   · intro t ht
     unfold chosenText at ht
     rw [a3]
-    cases hla : lastArg 'u' (getopt (optstring p) argv).1 with
+    cases hla : lastArg 'u' (getopt (fullString d p) argv).1 with
     | some a =>
       simp [hla] at ht
       subst ht
@@ -280,9 +282,252 @@ theorem never_hangs {fx : Fixes} {d : Defaults} {p : Pers} {env : Env} {argv : L
   simp [runTerminates]
   omega
 
+
+/-! ## valid settings are accepted and take effect -/
+
+/-- every numeric variable the environment sets is in canonical valid form -/
+def envValid (env : Env) : Prop :=
+  (∀ t, getenv env "FANOUT" = some t → validNum 1 t) ∧
+  (∀ t, getenv env "PDSH_CONNECT_TIMEOUT" = some t → validNum 0 t) ∧
+  (∀ t, getenv env "PDSH_COMMAND_TIMEOUT" = some t → validNum 0 t)
+
+/-- the transport in force: command line, else environment, else the first loaded module of the ranking -/
+def rcmdInForce (d : Defaults) (env : Env) (toks : List Tok) : Option Str :=
+  lastArg 'R' toks <|> getenv env "PDSH_RCMD_TYPE" <|> defaultRcmd d
+
+/-- the connect time-out in force -/
+def ctmoInForce (fx : Fixes) (env : Env) (toks : List Tok) : Int :=
+  pick ((lastArg 't' toks).map (convT fx)) ((getenv env "PDSH_CONNECT_TIMEOUT").map (convS fx)) CONNECT_TIMEOUT
+
+/-- ACCEPTS VALID (every variant of the code, unchanged or repaired): a command line whose options are all known
+    (`wf`), each given in valid form (`goodOpt`: fanout a plain decimal in 1..INT_MAX, time-outs plain decimals in
+    0..INT_MAX, user name within the limit, no option that ends the program or switches to another mode), with a
+    target list, an environment whose numeric variables are valid, a transport in force that is loaded, not the
+    documented exec / connect-time-out conflict, and (pdcp) at least two operands, is ACCEPTED. -/
+theorem accepts_valid (fx : Fixes) (d : Defaults) (p : Pers) (env : Env) (opts : List OptW) (operands : List Str)
+    (hwf : ∀ o ∈ opts, o.wf (fullString d p)) (hgood : ∀ o ∈ opts, goodOpt fx d o) (henv : envValid env)
+    (hw : ∃ o ∈ opts, o.ch = 'w')
+    (hrcmd : ∃ n, rcmdInForce d env (opts.map OptW.tok) = some n ∧ n ∈ d.rcmdModules)
+    (hexec : execLoaded d = true → rcmdInForce d env (opts.map OptW.tok) = some "exec".toList →
+      ctmoInForce fx env (opts.map OptW.tok) = CONNECT_TIMEOUT)
+    (hops : p.isPcp = true → operands.length ≥ 2) :
+    ∃ c, effective fx d p env (render opts operands) = .ok c := by
+  have hg := getopt_render (fullString d p) opts operands hwf
+  obtain ⟨toks, htoks⟩ : ∃ toks, toks = opts.map OptW.tok := ⟨_, rfl⟩
+  rw [← htoks] at hg hrcmd hexec
+  obtain ⟨hef, hect, heut⟩ := henv
+  -- opt_env
+  obtain ⟨c1, he⟩ : ∃ c1, optEnv fx p env (optDefault d) = .ok c1 := by
+    unfold optEnv
+    rw [envNum_valid fx env "FANOUT" _ 1 hef, envNum_valid fx env "PDSH_CONNECT_TIMEOUT" _ 0 hect,
+      envNum_valid fx env "PDSH_COMMAND_TIMEOUT" _ 0 heut]
+    exact ⟨_, rfl⟩
+  obtain ⟨f, ct, ut, hf, hct, hut, hc1⟩ := optEnv_ok he
+  -- opt_args
+  have hmem : ∀ t ∈ toks, ∃ o ∈ opts, o.tok = t := by
+    intro t ht; rw [htoks] at ht; obtain ⟨o, ho, rfl⟩ := List.mem_map.mp ht; exact ⟨o, ho, rfl⟩
+  have hnoexit : ∀ t ∈ toks, ∀ n, action fx d t ≠ .exit n := by
+    intro t ht; obtain ⟨o, ho, rfl⟩ := hmem t ht; exact (good_action fx d o (hgood o ho)).1
+  have hflags : ∀ t ∈ toks, ∀ fl, action fx d t = .flag fl → fl = .S ∨ fl = .k ∨ fl = .q ∨ fl = .w := by
+    intro t ht; obtain ⟨o, ho, rfl⟩ := hmem t ht; exact (good_action fx d o (hgood o ho)).2
+  obtain ⟨c3, ha⟩ := applyToks_ok_of_no_exit fx d p toks hnoexit
+    (optArgsEarly c1 (getopt (earlyString fx d p) (render opts operands)).1)
+  have e2 := optArgsEarly_other c1 (getopt (earlyString fx d p) (render opts operands)).1
+  have k1 := applyToks_field fx d p (·.fanout) _ (fun c t c1 => step_fanout fx d p c c1 t) toks _ _ ha
+  have k2 := applyToks_field fx d p (·.connectTimeout) _ (fun c t c1 => step_ctmo fx d p c c1 t) toks _ _ ha
+  have k3 := applyToks_field fx d p (·.commandTimeout) _ (fun c t c1 => step_utmo fx d p c c1 t) toks _ _ ha
+  have k5 := applyToks_field fx d p (·.rcmdName) _ (fun c t c1 => step_rcmd fx d p c c1 t) toks _ _ ha
+  simp only [lastSome_argOf] at k1 k2 k3 k5
+  obtain ⟨g1, g2, g3, g4⟩ := applyToks_flags fx d p toks hflags _ _ ha
+  rw [e2] at k1 k2 k3 k5 g1 g2 g3
+  have hwc : c3.hasWcoll = true := by
+    apply g4
+    right
+    obtain ⟨o, ho, hch⟩ := hw
+    refine ⟨o.tok, by rw [htoks]; exact List.mem_map.mpr ⟨o, ho, rfl⟩, ?_⟩
+    have hgo := hgood o ho
+    unfold goodOpt at hgo
+    rw [hch, caseOf_w] at hgo
+    simp only at hgo
+    unfold OptW.tok action
+    simp [hch, caseOf_w, hgo, Option.elim]
+  subst hc1
+  simp only [optDefault] at k1 k2 k3 k5 g1 g2 g3
+  -- the values
+  have v1 := (envNum_ok hf).1
+  have v2 := (envNum_ok hct).1
+  have v3 := (envNum_ok hut).1
+  simp only [optDefault] at v1 v2 v3
+  have argValid : ∀ ch a, lastArg ch toks = some a → ∃ o ∈ opts, o.ch = ch ∧ o.arg.getD [] = a := by
+    intro ch a h; rw [htoks] at h; exact lastArg_map_tok h
+  have hfan : c3.fanout ≥ 1 := by
+    rw [k1]
+    cases hla : lastArg 'f' toks with
+    | some a =>
+      obtain ⟨o, ho, hch, harg⟩ := argValid 'f' a hla
+      have hgo := hgood o ho
+      unfold goodOpt at hgo
+      rw [hch, caseOf_f] at hgo
+      simp only [harg] at hgo
+      have := hgo.2.1
+      simp [validNum_stringToInt fx hgo] <;> omega
+    | none =>
+      simp only [Option.map_none, Option.getD_none, v1]
+      cases hge : getenv env "FANOUT" with
+      | none => simp [Option.elim] <;> decide
+      | some t =>
+        have hv := hef t hge
+        have := hv.2.1
+        simp [Option.elim, convEnv, validNum_stringToInt fx hv] <;> omega
+  have hctv : c3.connectTimeout = ctmoInForce fx env toks := by
+    rw [k2, v2]
+    unfold ctmoInForce
+    cases lastArg 't' toks <;> cases getenv env "PDSH_CONNECT_TIMEOUT" <;> simp [pick, convS, convT, convEnv]
+  have hct0 : c3.connectTimeout ≥ 0 := by
+    rw [k2]
+    cases hla : lastArg 't' toks with
+    | some a =>
+      obtain ⟨o, ho, hch, harg⟩ := argValid 't' a hla
+      have hgo := hgood o ho
+      unfold goodOpt at hgo
+      rw [hch, caseOf_t] at hgo
+      simp only [harg] at hgo
+      simp [validNum_timeoutArg fx hgo] <;> omega
+    | none =>
+      simp only [Option.map_none, Option.getD_none, v2]
+      cases hge : getenv env "PDSH_CONNECT_TIMEOUT" with
+      | none => simp [Option.elim] <;> decide
+      | some t =>
+        have hv := hect t hge
+        simp [Option.elim, convEnv, validNum_stringToInt fx hv] <;> omega
+  have hut0 : c3.commandTimeout ≥ 0 := by
+    rw [k3]
+    cases hla : lastArg 'u' toks with
+    | some a =>
+      obtain ⟨o, ho, hch, harg⟩ := argValid 'u' a hla
+      have hgo := hgood o ho
+      unfold goodOpt at hgo
+      rw [hch, caseOf_u] at hgo
+      simp only [harg] at hgo
+      simp [validNum_timeoutArg fx hgo] <;> omega
+    | none =>
+      simp only [Option.map_none, Option.getD_none, v3]
+      cases hge : getenv env "PDSH_COMMAND_TIMEOUT" with
+      | none => simp [Option.elim]
+      | some t =>
+        have hv := heut t hge
+        simp [Option.elim, convEnv, validNum_stringToInt fx hv] <;> omega
+  -- the transport
+  obtain ⟨n, hn, hnm⟩ := hrcmd
+  have hname : (c3.rcmdName <|> defaultRcmd d) = some n := by
+    rw [k5, ← hn]
+    unfold rcmdInForce
+    cases lastArg 'R' toks <;> cases getenv env "PDSH_RCMD_TYPE" <;> simp
+  obtain ⟨c4, hp4, hc4⟩ : ∃ c4, postArgs d c3 = .ok c4 ∧ c4 = { c3 with rcmdName := some n } := by
+    unfold postArgs
+    simp only [hname, hnm, if_true]
+    exact ⟨_, rfl, rfl⟩
+  -- opt_verify
+  have hver : optVerify fx d p c4 operands.length = true := by
+    subst hc4
+    unfold optVerify
+    simp only [g2, g3, g1, hwc, Bool.not_false, Bool.and_self, Bool.not_true, Bool.false_or, Bool.true_and,
+      Bool.and_eq_true, Bool.or_eq_true, decide_eq_true_eq, Bool.not_eq_true', Bool.and_true]
+    refine ⟨⟨?_, ⟨⟨hct0, hut0⟩, Or.inr hfan⟩⟩, ?_⟩
+    · by_cases hx : execLoaded d = true
+      · by_cases hnx : n = "exec".toList
+        · subst hnx
+          have := hexec hx hn
+          simp [hctv, this]
+        · have hd : decide (some n = some "exec".toList) = false :=
+            decide_eq_false (fun h => hnx (Option.some.inj h))
+          rw [hd]
+          simp
+      · simp [hx]
+    · by_cases hpcp : p.isPcp = true
+      · right; exact hops hpcp
+      · left; simpa using hpcp
+  refine ⟨c4, ?_⟩
+  unfold effective
+  simp only [he, hg, ha, hp4, hver, if_true]
+
+/-- TAKES THE VALUE GIVEN: in that accepted run every numeric setting IS the number written — the argument of the
+    last occurrence of its option, else its environment variable, else the default — and the textual settings are
+    the texts themselves (`precedence`); no truncation, wrap or clamp can interfere with valid values, in any
+    variant of the code.  (`hearly`: for the module selection the early pass must know the option string of the
+    second pass — repaired, or no module registers options; otherwise see `misc_order_dependent`.) -/
+theorem takes_value_given {fx : Fixes} {d : Defaults} {p : Pers} {env : Env} {opts : List OptW}
+    {operands : List Str} {c : Cfg}
+    (hwf : ∀ o ∈ opts, o.wf (fullString d p)) (hgood : ∀ o ∈ opts, goodOpt fx d o) (henv : envValid env)
+    (hearly : fx.early = true ∨ d.modOpts = [])
+    (h : effective fx d p env (render opts operands) = .ok c) :
+    c.fanout = pick ((lastArg 'f' (opts.map OptW.tok)).map fun a => (CInt.digitsVal a : Int))
+                    ((getenv env "FANOUT").map fun a => (CInt.digitsVal a : Int)) DFLT_FANOUT ∧
+    c.connectTimeout = pick ((lastArg 't' (opts.map OptW.tok)).map fun a => (CInt.digitsVal a : Int))
+                    ((getenv env "PDSH_CONNECT_TIMEOUT").map fun a => (CInt.digitsVal a : Int)) CONNECT_TIMEOUT ∧
+    c.commandTimeout = pick ((lastArg 'u' (opts.map OptW.tok)).map fun a => (CInt.digitsVal a : Int))
+                    ((getenv env "PDSH_COMMAND_TIMEOUT").map fun a => (CInt.digitsVal a : Int)) 0 ∧
+    c.ruser = pick (lastArg 'l' (opts.map OptW.tok)) none d.luser ∧
+    c.rcmdName = rcmdInForce d env (opts.map OptW.tok) ∧
+    c.miscModules = (lastArg 'M' (opts.map OptW.tok) <|> getenv env "PDSH_MISC_MODULES") ∧
+    c.remotePath = pick (lastArg 'e' (opts.map OptW.tok))
+                    (if p.isPcp then getenv env "PDSH_REMOTE_PDCP_PATH" else none) d.progPath := by
+  obtain ⟨a1, a2, a3, a4, a5, a6, a7⟩ := precedence h
+  have hes : earlyString fx d p = fullString d p := by
+    unfold earlyString fullString
+    rcases hearly with he | he
+    · simp [he]
+    · simp [he]
+  rw [hes] at a6
+  rw [getopt_render (fullString d p) opts operands hwf] at a1 a2 a3 a4 a5 a6 a7
+  simp only at a1 a2 a3 a4 a5 a6 a7
+  obtain ⟨hef, hect, heut⟩ := henv
+  have argGood : ∀ ch a, lastArg ch (opts.map OptW.tok) = some a → ∃ o ∈ opts, o.ch = ch ∧ o.arg.getD [] = a :=
+    fun ch a h => lastArg_map_tok h
+  refine ⟨?_, ?_, ?_, a4, a5, a6, a7⟩
+  · rw [a1]
+    cases hla : lastArg 'f' (opts.map OptW.tok) with
+    | some a =>
+      obtain ⟨o, ho, hch, harg⟩ := argGood 'f' a hla
+      have hgo := hgood o ho
+      unfold goodOpt at hgo
+      rw [hch, caseOf_f] at hgo
+      simp only [harg] at hgo
+      simp [pick, convS, validNum_stringToInt fx hgo]
+    | none =>
+      cases hge : getenv env "FANOUT" with
+      | none => simp [pick]
+      | some t => simp [pick, convS, validNum_stringToInt fx (hef t hge)]
+  · rw [a2]
+    cases hla : lastArg 't' (opts.map OptW.tok) with
+    | some a =>
+      obtain ⟨o, ho, hch, harg⟩ := argGood 't' a hla
+      have hgo := hgood o ho
+      unfold goodOpt at hgo
+      rw [hch, caseOf_t] at hgo
+      simp only [harg] at hgo
+      simp [pick, convT, validNum_timeoutArg fx hgo]
+    | none =>
+      cases hge : getenv env "PDSH_CONNECT_TIMEOUT" with
+      | none => simp [pick]
+      | some t => simp [pick, convS, validNum_stringToInt fx (hect t hge)]
+  · rw [a3]
+    cases hla : lastArg 'u' (opts.map OptW.tok) with
+    | some a =>
+      obtain ⟨o, ho, hch, harg⟩ := argGood 'u' a hla
+      have hgo := hgood o ho
+      unfold goodOpt at hgo
+      rw [hch, caseOf_u] at hgo
+      simp only [harg] at hgo
+      simp [pick, convT, validNum_timeoutArg fx hgo]
+    | none =>
+      cases hge : getenv env "PDSH_COMMAND_TIMEOUT" with
+      | none => simp [pick]
+      | some t => simp [pick, convS, validNum_stringToInt fx (heut t hge)]
+
 /-! ## the unchanged code: kernel-checked counterexamples -/
 
-def d0 : Defaults := ⟨"root".toList, 256, "/p".toList, ["exec".toList, "rsh".toList]⟩
+def d0 : Defaults := ⟨"root".toList, 256, "/p".toList, ["exec".toList, "rsh".toList], []⟩
 def words (l : List String) : List Str := l.map String.toList
 def fanoutOf : Result → Option Int
   | .ok c => some c.fanout
@@ -334,6 +579,121 @@ theorem d_option_unchanged_false :
 example : ∃ c, effective Fixes.all d0 .dsh [("FANOUT".toList, "8".toList), ("PDSH_RCMD_TYPE".toList, "rsh".toList)]
     (words ["-Nf", "3", "-R", "exec", "-u7", "-w", "h", "--", "cmd"]) = .ok c ∧ c.fanout = 3 ∧
     c.rcmdName = some "exec".toList ∧ c.commandTimeout = 7 ∧ c.pcpServer = false ∧ c.pcpClient = false := by
+  refine ⟨_, rfl, ?_⟩
+  decide
+
+
+/-! ## values given per target in the target list, options of modules -/
+
+/-- a -w argument that opt_args accepted: every word was accepted -/
+theorem wcollArg_some_all {fx : Fixes} {d : Defaults} {a : Str} {b : Bool} (h : wcollArg fx d a = some b) :
+    ∀ w ∈ splitWords a, ∃ b', wcollWord fx d w = some b' := by
+  unfold wcollArg at h
+  generalize splitWords a = ws at h ⊢
+  have key : ∀ (ws : List Str) (acc : Option Bool) (b : Bool),
+      ws.foldl (fun acc w => match acc with
+        | none => none
+        | some b => (wcollWord fx d w).map (b || ·)) acc = some b →
+      (∃ b0, acc = some b0) ∧ ∀ w ∈ ws, ∃ b', wcollWord fx d w = some b' := by
+    intro ws
+    induction ws with
+    | nil => intro acc b h; exact ⟨⟨b, h⟩, fun w hw => by simp at hw⟩
+    | cons w t ih =>
+      intro acc b h
+      simp only [List.foldl_cons] at h
+      obtain ⟨⟨b1, hb1⟩, ht⟩ := ih _ b h
+      cases acc with
+      | none => simp at hb1
+      | some b0 =>
+        simp only at hb1
+        cases hw : wcollWord fx d w with
+        | none => simp [hw] at hb1
+        | some b' =>
+          refine ⟨⟨b0, rfl⟩, ?_⟩
+          intro x hx
+          rcases List.mem_cons.mp hx with rfl | hin
+          · exact ⟨b', hw⟩
+          · exact ht x hin
+  exact (key ws (some false) b h).2
+
+/-- PER-TARGET VALUES ARE CHECKED TOO: in an accepted run every word `[rcmd_type:][user@]hosts` of every -w
+    argument is well-formed and names a loaded transport (every variant), and — repaired `wuser` — a user name
+    within the limit -/
+theorem wcoll_refused {fx : Fixes} {d : Defaults} {p : Pers} {env : Env} {argv : List Str} {c : Cfg}
+    (h : effective fx d p env argv = .ok c) (arg : Option Str)
+    (hin : Tok.opt 'w' arg ∈ (getopt (fullString d p) argv).1)
+    (w : Str) (hw : w ∈ splitWords (arg.getD [])) (hplain : specialWord w = none) :
+    ∃ hs, parseHostSpec (w.dropWhile isBlank) = some hs ∧
+      (∀ t, hs.ty = some t → d.rcmdModules.contains t = true) ∧
+      (fx.wuser = true → ∀ u, hs.user = some u → u.length ≤ d.loginMax) := by
+  obtain ⟨c1, c3, _, ha, _, _⟩ := effective_ok_inv h
+  have hne := applyToks_no_exit ha _ hin 1
+  unfold action at hne
+  simp only [caseOf_w] at hne
+  cases hwa : wcollArg fx d (arg.getD []) with
+  | none => simp [hwa, Option.elim] at hne
+  | some b =>
+    obtain ⟨b', hb'⟩ := wcollArg_some_all hwa w hw
+    unfold wcollWord at hb'
+    simp only [hplain] at hb'
+    cases hp : parseHostSpec (w.dropWhile isBlank) with
+    | none => simp [hp] at hb'
+    | some hs =>
+      simp only [hp] at hb'
+      refine ⟨hs, rfl, ?_, ?_⟩
+      · intro t ht
+        simp only [ht] at hb'
+        simp at hb'
+        simpa using hb'.1
+      · intro hwu u hu
+        simp only [hu, hwu, Bool.true_and] at hb'
+        by_cases hl : u.length > d.loginMax
+        · have hl' : decide (u.length > d.loginMax) = true := by simpa using hl
+          simp [hl'] at hb'
+        · omega
+
+def d8 : Defaults := ⟨"root".toList, 8, "/p".toList, ["exec".toList, "rsh".toList], "g:".toList⟩
+
+/-- FALSE of the unchanged code: an over-long user name given as `user@hosts` is accepted (limit 8 here);
+    repaired, the same command line is refused -/
+theorem wcoll_user_unchanged_false :
+    (∃ c, effective Fixes.none d8 .dsh [] ["-w".toList, "exec:verylonguser@h".toList, "cmd".toList] = .ok c) ∧
+    effective Fixes.all d8 .dsh [] ["-w".toList, "exec:verylonguser@h".toList, "cmd".toList] = .exit 1 ∧
+    effective Fixes.none d8 .dsh [] ["-w".toList, "nosuch:h".toList, "cmd".toList] = .exit 1 := by
+  refine ⟨⟨_, rfl⟩, ?_, ?_⟩ <;> decide
+
+def miscOf : Result → Option (Option Str)
+  | .ok c => some c.miscModules
+  | .exit _ => none
+
+/-- FALSE of the unchanged code (module selection is not independent of the other options): module G registers
+    `-g name`; opt_args_early, which runs before the modules are loaded, does not know it, takes `name` for the
+    first operand and stops: a -M after it is lost; written `-gM` the argument is even read as the option -M.
+    Repaired (`early`), all three command lines select B. -/
+theorem misc_order_dependent_unchanged_false :
+    miscOf (effective Fixes.none d8 .dsh [] (["-M", "B", "-g", "x", "-w", "h", "cmd"].map String.toList)) = some (some ['B']) ∧
+    miscOf (effective Fixes.none d8 .dsh [] (["-g", "x", "-M", "B", "-w", "h", "cmd"].map String.toList)) = some none ∧
+    miscOf (effective Fixes.none d8 .dsh [] (["-M", "B", "-gM", "-w", "h", "cmd"].map String.toList)) = some (some "-w".toList) ∧
+    miscOf (effective Fixes.all d8 .dsh [] (["-g", "x", "-M", "B", "-w", "h", "cmd"].map String.toList)) = some (some ['B']) ∧
+    miscOf (effective Fixes.all d8 .dsh [] (["-M", "B", "-gM", "-w", "h", "cmd"].map String.toList)) = some (some ['B']) := by
+  decide
+
+/-- repaired `early` (or no module registers options): the module selection obeys the same rule as every other
+    setting, on the tokens of the full option string -/
+theorem precedence_misc {fx : Fixes} {d : Defaults} {p : Pers} {env : Env} {argv : List Str} {c : Cfg}
+    (hearly : fx.early = true ∨ d.modOpts = []) (h : effective fx d p env argv = .ok c) :
+    c.miscModules = (lastArg 'M' (getopt (fullString d p) argv).1 <|> getenv env "PDSH_MISC_MODULES") := by
+  obtain ⟨_, _, _, _, _, a6, _⟩ := precedence h
+  have hes : earlyString fx d p = fullString d p := by
+    unfold earlyString fullString
+    rcases hearly with he | he <;> simp [he]
+  rw [hes] at a6
+  exact a6
+
+/-- the hypotheses of `accepts_valid` are satisfiable by a non-trivial command line and environment -/
+example : ∃ c, effective Fixes.none d0 .dsh [("FANOUT".toList, "8".toList)]
+    (render [⟨'N', none⟩, ⟨'f', some "3".toList⟩, ⟨'R', some "exec".toList⟩, ⟨'u', some "7".toList⟩,
+             ⟨'w', some "h".toList⟩] [ "cmd".toList ]) = .ok c ∧ c.fanout = 3 ∧ c.commandTimeout = 7 := by
   refine ⟨_, rfl, ?_⟩
   decide
 
